@@ -74,6 +74,7 @@ func init() {
 	errT := types.Universe.Lookup("error").Type()
 	newErr := func(fr *Frame, st *State) Val {
 		r := st.freshRef("err")
+		st.assume(Eq(RefTag(r), IntLit(2000003))) // an error value is not an object of any module struct type
 		return Val{K: KIface, T: errT, F: []Val{scalar(IntLit(int64(fr.run.eng.typeID(sentinelType{}))), it), scalar(r, it)}}
 	}
 	reg("errors.New", "returns a fresh non-nil error", func(fr *Frame, ins ssa.Instruction, callee *ssa.Function, args []Val, st *State) Val {
